@@ -135,7 +135,7 @@ def run_verus_unit(u, cfg, repo, tier, work):
 
 # ------------------------------------------------------------------ Kani units
 
-def run_kani_units(units, cfgs, repo, tier, work):
+def run_kani_units(units, cfgs, repo, tier, work, prop=None):
     """All kani units of one crate share a scratch copy and a single cargo-kani invocation."""
     t0 = time.time()
     obl, infos = [], []
@@ -151,6 +151,9 @@ def run_kani_units(units, cfgs, repo, tier, work):
             for h, hc in cfg["harnesses"].items():
                 if hc.get("tier", "quick") == "thorough" and tier != "thorough":
                     continue
+                only = cfg.get("serves_only", {}).get(h)
+                if only is not None and prop is not None and prop not in only:
+                    continue  # this harness serves other properties only: do not even run it
                 hlist.append(h)
                 hmeta[h] = (u, hc)
             for fl in cfg.get("flags", []):
@@ -361,7 +364,7 @@ def main(argv=None):
     kunits = [u for u in units if cfgs[u]["engine"] == "kani"]
     with cf.ThreadPoolExecutor(max_workers=6) as ex:
         futs = [ex.submit(run_verus_unit, u, cfgs[u], a.repo, a.tier, work) for u in vunits]
-        kf = ex.submit(run_kani_units, kunits, cfgs, a.repo, a.tier, work) if kunits else None
+        kf = ex.submit(run_kani_units, kunits, cfgs, a.repo, a.tier, work, a.prop) if kunits else None
         for f in futs:
             o, i = f.result()
             obligations += o
